@@ -733,7 +733,7 @@ class Integer(Atomic, CommonMath):
 
     def encode(self, tag):
         # rip apart the number
-        data = bytearray(struct.pack('>I', self.value & 0xFFFFFFFF))
+        data = bytearray(struct.pack('>i', self.value))
 
         # reduce the value to the smallest number of bytes, be
         # careful about sign extension
